@@ -39,6 +39,7 @@ and look its stream up; process it) — every theorem quantifies over ALL op lis
 * `h2_forget_wakes_all` : `forgetStreamID` wakes EVERY goroutine asleep on `cc.cond` (Broadcast) —
                         the pending request among them, whoever else (uploads stalled on flow
                         control) went to sleep first.
+* `h2_raised_limit_wakes_all` : SETTINGS raising MAX_CONCURRENT_STREAMS wake every sleeper.
 * `h2_woken_pending_admitted` : a pending request that was woken and finds the connection usable
                         with a free slot is admitted with the next stream id.
 -/
@@ -261,6 +262,17 @@ theorem h2_forget_wakes_all (cfg : Cfg) (s : St) (k : Caller)
   repeat' split
   all_goals (simp [broadcast, setCS]; try (intro w hw; exact Or.inr hw))
 
+/-- **h2_raised_limit_wakes_all** — in ANY state: SETTINGS that raise MAX_CONCURRENT_STREAMS leave
+nobody asleep on `cc.cond` (`processSettingsNoWrite` broadcasts, /repo a90e62e): the request
+pending for a slot looks again (`h2_woken_pending_admitted`). -/
+theorem h2_raised_limit_wakes_all (cfg : Cfg) (s : St) (v : Nat) (tgt : Option Caller)
+    (hrl : s.rl = some (.settings (some v), tgt)) (hv : v > s.maxConc) :
+    let s' := (step cfg s .rlProcess).1
+    s'.maxConc = v ∧ s'.condWait = [] ∧ ∀ w ∈ s.condWait, w ∈ s'.woken := by
+  simp only [step, hrl, process]
+  simp [hv, broadcast]
+  intro w hw; exact Or.inr hw
+
 /-- **h2_woken_pending_admitted** -/
 theorem h2_woken_pending_admitted (cfg : Cfg) (s : St) (k : Caller)
     (hp : (s.cs k).phase = .pending) (hw : k ∈ s.woken) (ha : (s.cs k).abort = none)
@@ -310,6 +322,11 @@ example : ((run strict {} full1).cs 0).got =
 
 example : (run strict {} (full1 ++ [.rlRead (.data 9 4 false 73), .rlProcess])).closed = true ∧
     (run strict {} (full1 ++ [.rlRead (.data 9 4 false 73), .rlProcess])).goAwaySent = some 1 := by decide
+
+/-- the peer raises its limit from 1 to 2 while caller 1 sleeps for a slot: it is woken and admitted -/
+example :
+    let s := run strict {} (setup1 ++ [.rlRead (.settings (some 2)), .rlProcess, .wake 1])
+    s.streams = [(3, 1), (1, 0)] ∧ s.pendingReq = 0 ∧ (s.cs 1).phase = .opened := by decide
 
 /-- the read loop looked stream 1 up, the caller cancelled and forgot it before the frame was
 processed: the item still lands in caller 0's own (abandoned) stream object, nowhere else. -/
